@@ -138,6 +138,21 @@ def generate(seed, tier):
         remaining[j] -= 1
         if not remaining[j]:
             del remaining[j]
+    copies = [j for j in sorted(made) if j and is_model(objs, j)]
+    if kind == 'file' and copies and orng.chance(.25):
+        # a copy calculates with overrides and writes "its" workbooks, then
+        # the original is finished again and recalculated: nothing of the
+        # copy's may have reached the workbooks the original was loaded from
+        j = orng.pick(copies)
+        steps.append({'do': 'op', 'obj': j, 'op': {
+            'op': 'calc', 'outputs': None, 'write': False,
+            'inputs': C07.gen_inputs(orng, world, orng.randrange(1, 4),
+                                     blanks=True)}})
+        steps.append({'do': 'op', 'obj': j, 'op': {'op': 'write_books'}})
+        steps.append({'do': 'op', 'obj': 0, 'op': {'op': 'finish'}})
+        steps.append({'do': 'op', 'obj': 0, 'op': {
+            'op': 'calc', 'outputs': None, 'write': False,
+            'inputs': C07.gen_inputs(orng, world, orng.randrange(0, 3))}})
     return {'prop': ID, 'seed': seed, 'tier': tier, 'world': world,
             'schedule': s, 'objects': objs, 'steps': steps,
             'equiv_inputs': [C07.gen_inputs(orng, world, orng.randrange(0, 3),
@@ -158,7 +173,10 @@ def gen_op(rng, world, objs, j, kind_file):
         return {'op': 'call', 'args': [C07.gen_value(rng) for _ in range(3)]}
     original = j == 0
     k = rng.weighted([('calc', 6), ('finish', 1), ('add', 1.5),
-                      ('write_books', 1 if kind_file and original else 0),
+                      # (a copy carries no workbooks: there the call raises,
+                      # which is recorded and not judged - unless a change
+                      # makes copies share the original's workbooks)
+                      ('write_books', 1 if kind_file else 0),
                       ('to_dict', 1)])
     op = {'op': k}
     if k == 'calc':
